@@ -81,11 +81,13 @@ def check_maps(src: str, tokens, env, res: Res, stats: dict) -> None:
     L = src_lines(src)
     n = len(L)
     stack: list = []  # maps of open ancestors
+    kinds: list = []  # their token kinds
     lastsib: list = [None]
     for idx, t in enumerate(tokens):
         if t.nesting == -1:
             if stack:
                 stack.pop()
+                kinds.pop()
                 lastsib.pop()
             continue
         m = t.map
@@ -102,6 +104,22 @@ def check_maps(src: str, tokens, env, res: Res, stats: dict) -> None:
                         res.fail(f"start-blank:{t.type}", f"map {m} starts on blank line {L[b]!r}")
                     if t.type in END_NONBLANK and blank(L[e - 1]):
                         res.fail(f"end-blank:{t.type}", f"map {m} ends on blank line")
+                    if stack and all(k == "blockquote_open" for k in kinds) and t.type != "blockquote_open":
+                        # inside block quotes only: blank means blank after the quote markers (column-exact cursor)
+                        from .c08 import enter_quotes
+
+                        cb = enter_quotes(L[b], len(stack))
+                        if cb is not None and cb.rest()[0].strip(" \t") == "":
+                            res.fail(f"start-blank-in-quote:{t.type}", f"map {m} starts on {L[b]!r}, which is blank inside its {len(stack)} quote(s)")
+                        ce = enter_quotes(L[e - 1], len(stack))
+                        if t.type in END_NONBLANK and ce is not None and ce.rest()[0].strip(" \t") == "":
+                            res.fail(f"end-blank-in-quote:{t.type}", f"map {m} ends on {L[e - 1]!r}, which is blank inside its quote(s)")
+                        stats["strict_blank_in_quotes"] = True
+                    if top and t.type == "paragraph_open" and idx + 1 < len(tokens) and tokens[idx + 1].type == "inline":
+                        # top level: the paragraph's content is exactly its source lines, stripped at both ends
+                        exp = "\n".join(L[b:e]).strip()
+                        if tokens[idx + 1].content != exp and tokens[idx + 1].map == m:
+                            res.fail("paragraph-content-exact", f"content {tokens[idx + 1].content!r} != lines {m} stripped {exp!r}")
                     par = next((pm for pm in reversed(stack) if pm is not None), None)
                     if par is not None and not (par[0] <= b and e <= par[1]):
                         res.fail(f"outside-parent:{t.type}", f"map {m} not inside enclosing map {par}")
@@ -128,6 +146,7 @@ def check_maps(src: str, tokens, env, res: Res, stats: dict) -> None:
             stats["table"] = True
         if t.nesting == 1:
             stack.append(m if (isinstance(m, list) and len(m) == 2) else None)
+            kinds.append(t.type)
             lastsib.append(None)
     covered = set()
     for t in tokens:
